@@ -133,6 +133,26 @@ fn mk_data(shape: &[usize], periodic_mode: u8) -> ArrayD<f64> {
             v[lanes - 1] = f64::NAN;
             v[(rows - 1) * lanes + lanes - 1] = f64::NAN;
         }
+        // 4: the last lane's end value differs from its first value by one ulp
+        if periodic_mode == 4 {
+            let k = (rows - 1) * lanes + lanes - 1;
+            v[k] = f64::from_bits(v[k].to_bits() + 1);
+            if v[k] == v[lanes - 1] {
+                v[k] = 5e-324;
+            }
+        }
+        // 5: data in a tiny unit (2^-80); the ends of the last lane differ by 1/8 of that unit
+        if periodic_mode == 5 {
+            v[(rows - 1) * lanes + lanes - 1] += 0.125;
+            for a in v.iter_mut() {
+                *a *= 2f64.powi(-80);
+            }
+        }
+        // 6: equal ends that differ only in the sign of zero (+0.0 and -0.0 are equal)
+        if periodic_mode == 6 {
+            v[lanes - 1] = 0.0;
+            v[(rows - 1) * lanes + lanes - 1] = -0.0;
+        }
     }
     ArrayD::from_shape_vec(IxDyn(shape), v).unwrap()
 }
@@ -155,6 +175,9 @@ fn table_1d(args: &Args, ev: &mut Ev, full: bool) {
         St::Periodic(1),
         St::Periodic(2),
         St::Periodic(3),
+        St::Periodic(4),
+        St::Periodic(5),
+        St::Periodic(6),
         St::Individual("ok"),
         St::Individual("wrong-leading"),
         St::Individual("wrong-trailing"),
@@ -222,7 +245,7 @@ fn table_1d(args: &Args, ev: &mut Ev, full: bool) {
                             St::Spline("Natural") => Bound::Natural,
                             St::Spline(_) => Bound::Clamped,
                             St::Periodic(m) => {
-                                if *m >= 2 && rank >= 1 && dlen >= 2 && n_lanes > 0 {
+                                if (2..=5).contains(m) && rank >= 1 && dlen >= 2 && n_lanes > 0 {
                                     v.add("periodic-ends: first and last rows differ", &["ValueError"]);
                                 }
                                 Bound::Periodic
